@@ -6,6 +6,7 @@
 -/
 import MW.Model.Remove
 import MW.Gen.Layout
+import MW.Gen.Handler
 import MW.Lemmas.RemoveStep
 import MW.Lemmas.RemoveFrame
 import MW.Lemmas.RemoveProgress
@@ -460,6 +461,10 @@ theorem layout_prefix_exact (id id' rest : List UInt8)
 /-- the same fact fails without the fixed width — the hypothesis is needed (a test, by evaluation) -/
 example : ([1, 2] : List UInt8).isPrefixOf ([1, 2, 3] ++ [9]) = true ∧ ([1, 2, 3] : List UInt8) ≠ [1, 2] := by decide
 
+
+/-- the regenerated constants have the shape the theorems assume -/
+theorem gen_tie : Gen.Handler.removeCreditStep > 0 ∧ Gen.Handler.maxWaitingTaskNum > 0 ∧
+    Gen.Layout.walletIdLen = Gen.Handler.walletIdLen ∧ Gen.Layout.idPrefixed.length = 4 := by decide
 
 -- ------------------------------------------------------------------ non-vacuity: a concrete store meeting every hypothesis
 
